@@ -64,14 +64,40 @@ Proof.
   apply header_block_roundtrip. exact (accepted_items_ok hs es a H).
 Qed.
 
-(** H1 frontend: IF what kawa hands over is well-formed (token names, clean
-    values) THEN what is written is read back as the same field list.  That kawa
-    only hands over such lists or rejects is the differential tie (open findings). *)
-Theorem h1_forwarded_is_what_was_read_partial : forall fields rest,
-  forallb field_ok fields = true ->
+(** H1 frontend, sozu's OWN acceptance (the callback that sees every parsed
+    request before it is forwarded): whatever header list kawa hands over, if
+    sozu forwards it then the method and every field name are non-empty tokens,
+    Transfer-Encoding occurs at most once and is exactly [chunked], and every
+    Content-Length is 1*DIGIT.  (Was an assumption about kawa; now a theorem
+    about [h1_guard], which mirrors [editor.rs::h1_framing_violation].) *)
+Theorem h1_acceptance_well_formed : forall m hs,
+  h1_guard m hs = true ->
+  m <> [] /\ forallb is_tchar m = true /\ forallb name_ok hs = true /\
+  forallb (fun v => eq_nc v (B "chunked")) (values_of (B "transfer-encoding") hs) = true /\
+  (List.length (values_of (B "transfer-encoding") hs) <= 1)%nat /\
+  forallb (fun v => negb (is_nil v) && forallb is_digit v) (values_of (B "content-length") hs) = true.
+Proof.
+  intros m hs H. unfold h1_guard in H. apply andb_prop in H. destruct H as [H Hg].
+  apply andb_prop in H. destruct H as [Hm1 Hm2].
+  destruct (guard_fields_te false hs Hg) as [Ht1 Ht2].
+  repeat split; try assumption.
+  - intros E. rewrite E in Hm1. discriminate.
+  - exact (guard_fields_names false hs Hg).
+  - exact (guard_fields_cl false hs Hg).
+Qed.
+
+(** … hence what sozu forwards on the H1 path is read back field by field as
+    the list it understood.  The only remaining assumption on kawa is its value
+    alphabet (its [achar] table: HTAB, SP..~), checked differentially. *)
+Theorem h1_forwarded_is_what_was_read : forall m fields rest,
+  h1_guard m fields = true ->
+  forallb (fun h => forallb is_vbyte (snd h)) fields = true ->
   read_headers (S (List.length fields)) (flat_map line_of fields ++ crlf ++ rest) =
   Some (map (fun h => (fst h, trim_ows (snd h))) fields, rest).
-Proof. exact header_block_roundtrip. Qed.
+Proof.
+  intros m fields rest H Hv. apply header_block_roundtrip. apply name_value_field_ok; [|exact Hv].
+  unfold h1_guard in H. apply andb_prop in H. destruct H as [_ Hg]. exact (guard_fields_names false fields Hg).
+Qed.
 
 (** Content-Length vs DATA: a stream is never completed with a DATA total that
     differs from its declared length, and the running total never exceeds it. *)
@@ -114,6 +140,13 @@ Example strict_reader_nonvacuous :
   strict_h1 (B "GET / HTTP/1.1" ++ crlf ++ B "Host: x" ++ crlf ++ B "Content-Length: 3" ++ crlf ++
              B "Transfer-Encoding: chunked" ++ crlf ++ crlf ++ B "0" ++ crlf ++ crlf) = None.
 Proof. vm_compute. split; reflexivity. Qed.
+
+Example h1_guard_nonvacuous :
+  h1_guard (B "POST") [(B "Accept", B "*/*"); (B "Transfer-Encoding", B "Chunked")] = true /\
+  h1_guard (B "POST") [(B "Transfer-Encoding", B "xchunked")] = false /\
+  h1_guard (B "POST") [(B "Transfer-Encoding", B "chunked"); (B "transfer-encoding", B "chunked")] = false /\
+  h1_guard (B "POST") [(B "Content-Length", B "+3")] = false /\ h1_guard (B "GET") [([], B "foo")] = false.
+Proof. vm_compute. repeat split; reflexivity. Qed.
 
 Example data_agree_nonvacuous :
   data_agree (Some 5) 0 [Data 2 false; Data 3 true] = Complete 5 /\
